@@ -30,6 +30,27 @@ from harness.common import (Run, Disagreement, cli, LEAN, DriverError)  # noqa: 
 PROP = 'C18'
 DOC1 = '<n1 n2="v" n3="w" xmlns:p="urn:p"><n2>t</n2><!--c--><?n3 d?><n3/><n1 n1="x"/></n1>'
 DOC2 = '<n2><n1/></n2>'
+DOC3 = ('<n1 xmlns:p="urn:p" n2="v" p:n2="w"><n1 xmlns="urn:d" n2="u"/><p:n1 p:n3="z"/>'
+        '<n2 xmlns="urn:d"/><n2/><p:n2 n1="y"/></n1>')
+NS_IDS = {'': 0, 'urn:p': 1, 'urn:d': 2}
+# statically known namespaces of the parser: (constructor arguments, (default element namespace, p, q) as namespace ids)
+CFGS = [({}, (0, 0, 0)),
+        ({'namespaces': {'': 'urn:d', 'p': 'urn:p'}}, (2, 1, 0)),
+        ({'namespaces': {'p': 'urn:p'}}, (0, 1, 0)),
+        ({'namespaces': {'': 'urn:p', 'q': 'urn:d'}}, (1, 0, 2)),
+        ({'namespaces': {'q': 'urn:p'}, 'default_namespace': 'urn:d'}, (2, 0, 1))]
+
+
+def resolve_name(cfg, is_attr, lex):
+    """expanded name number of a lexical name (the harness uses it only to CHOOSE interesting names)"""
+    pre, loc = divmod(lex, 100)
+    ns = (0 if is_attr else cfg[0]) if pre == 0 else cfg[pre]
+    return 100 * ns + loc
+
+
+def lexical_for(cfg, is_attr, expanded):
+    return [100 * pre + expanded % 100 for pre in (0, 1, 2)
+            if (pre == 0 or cfg[pre]) and resolve_name(cfg, is_attr, 100 * pre + expanded % 100) == expanded]
 
 XSD_CTORS = ['anyAtomicType', 'untypedAtomic', 'string', 'normalizedString', 'token', 'language', 'NMTOKEN',
              'Name', 'NCName', 'ID', 'IDREF', 'ENTITY', 'boolean', 'decimal', 'integer', 'nonPositiveInteger',
@@ -121,7 +142,9 @@ QNAMES: list = []      # prefixed element names met in registered signatures: na
 def nt_text(nt) -> str:
     if nt == '-' or nt == '*':
         return '' if nt == '-' else '*'
-    return QNAMES[nt - 1000] if nt >= 1000 else f'n{nt}'
+    if nt >= 1000:
+        return QNAMES[nt - 1000]
+    return ('', 'p:', 'q:')[nt // 100] + f'n{nt % 100}'
 
 
 def render_leaf(leaf, sp) -> str:
@@ -374,12 +397,15 @@ class World:
         self.rng = rng
         self.L = live()
         self.parsers = {0: XPath31Parser(), 1: XPath31Parser(xsd_version='1.1')}
+        self._cfg_parsers = {}
+        self.XPath31Parser = XPath31Parser
         self.P = self.parsers[0]
         self.XPathContext = XPathContext
         self.root1 = XPathContext(ET.ElementTree(ET.XML(DOC1))).root
         self.root2 = XPathContext(ET.ElementTree(ET.XML(DOC2))).root
         self.nodes = []          # (python node, token string)
-        for root, is_root in ((self.root1, True), (self.root2, False)):
+        self.root3 = XPathContext(ET.ElementTree(ET.XML(DOC3))).root
+        for root, is_root in ((self.root1, True), (self.root2, False), (self.root3, False)):
             ctx = XPathContext(root)
             found = self.P.parse('(/ , //node(), //@*, //namespace::*)').evaluate(ctx)
             for n in found:
@@ -390,13 +416,24 @@ class World:
         self.func_skipped = 0
         self.ctx_items = [n for n, t in self.nodes if t.split(' ')[1] == 'e'][:3] + [self.root1]
 
+    def parser(self, x, c=0):
+        """the 3.1 parser for XSD version flag `x` and namespace configuration `c`"""
+        if c == 0:
+            return self.parsers[x]
+        if (x, c) not in self._cfg_parsers:
+            kw = dict(CFGS[c][0])
+            if x:
+                kw['xsd_version'] = '1.1'
+            self._cfg_parsers[x, c] = self.XPath31Parser(**kw)
+        return self._cfg_parsers[x, c]
+
     # ---- nodes
     @staticmethod
     def nm(name) -> int:
         if not name:
             return 0
-        m = re.fullmatch(r'(?:\{[^}]*\})?n(\d+)', name)
-        return int(m.group(1)) if m else 0
+        m = re.fullmatch(r'(?:\{([^}]*)\})?n(\d+)', name)
+        return (100 * NS_IDS.get(m.group(1) or '', 9) + int(m.group(2))) if m else 0
 
     def node_tok(self, n, is_root) -> str:
         kind = KIND_OF_NODE[n.node_kind]
@@ -694,29 +731,29 @@ def err_text(e) -> str:
     return 'E:OTHER:' + type(e).__name__
 
 
-def impl_match(W: World, pyval, st_text, xsd11, no_parser=False) -> str:
+def impl_match(W: World, pyval, st_text, xsd11, no_parser=False, c=0) -> str:
     from elementpath.sequence_types import match_sequence_type
     v = pyval[0] if len(pyval) == 1 else pyval
     try:
-        return 'T' if match_sequence_type(v, st_text, None if no_parser else W.parsers[xsd11]) else 'F'
+        return 'T' if match_sequence_type(v, st_text, None if no_parser else W.parser(xsd11, c)) else 'F'
     except Exception as e:
         return err_text(e)
 
 
-def impl_instance(W: World, pyval, st_text, xsd11) -> str:
+def impl_instance(W: World, pyval, st_text, xsd11, c=0) -> str:
     v = pyval[0] if len(pyval) == 1 else list(pyval)
     try:
-        tk = W.parsers[xsd11].parse(f'$v instance of {st_text}')
+        tk = W.parser(xsd11, c).parse(f'$v instance of {st_text}')
         r = tk.evaluate(W.XPathContext(W.root1, variables={'v': v}))
         return 'T' if r is True else ('F' if r is False else f'?{r!r}')
     except Exception as e:
         return err_text(e)
 
 
-def impl_treat(W: World, pyval, st_text, xsd11) -> str:
+def impl_treat(W: World, pyval, st_text, xsd11, c=0) -> str:
     v = pyval[0] if len(pyval) == 1 else list(pyval)
     try:
-        tk = W.parsers[xsd11].parse(f'$v treat as {st_text}')
+        tk = W.parser(xsd11, c).parse(f'$v treat as {st_text}')
         r = tk.evaluate(W.XPathContext(W.root1, variables={'v': v}))
         r = list(r) if isinstance(r, list) else [r]
         same = len(r) == len(pyval) and all(a is b or (type(a) is type(b) and not hasattr(a, 'node_kind') and _eq(a, b))
@@ -734,10 +771,17 @@ def _eq(a, b) -> bool:
         return False
 
 
-def impl_as_argument(W: World, item, st_text, xsd11) -> str:
+def impl_param(W: World, pyval, st_text, xsd11, c=0) -> str:
+    """the value passed to an inline function whose parameter is declared with the type (function conversion rules):
+    T accepted, F = XPTY0004"""
+    v = pyval[0] if len(pyval) == 1 else list(pyval)
+    return impl_as_argument(W, v, st_text, xsd11, c)
+
+
+def impl_as_argument(W: World, item, st_text, xsd11, c=0) -> str:
     """the item passed to an inline function whose parameter is declared with the type: T accepted, F = XPTY0004"""
     try:
-        tk = W.parsers[xsd11].parse(f'function($g as {st_text}) as xs:boolean {{ true() }}($v)')
+        tk = W.parser(xsd11, c).parse(f'function($g as {st_text}) as xs:boolean {{ true() }}($v)')
         r = tk.evaluate(W.XPathContext(W.root1, variables={'v': item}))
         return 'T' if r is True or r == [True] else f'?{r!r}'
     except Exception as e:
@@ -759,11 +803,13 @@ def fields(ans: str) -> dict:
 
 # =============================================================================== correspondence: judgements
 def judge_cases(run: Run, W: World, cases, label='judgement'):
-    """cases: list of (ty, (pyval, valtok), xsd11)"""
+    """cases: list of (ty, (pyval, valtok), xsd11[, namespace configuration])"""
     st = run.stats
-    lines = [f'J|{x}|{tok(ty)}|{vt}' for ty, (_, vt), x in cases]
+    cases = [cs if len(cs) == 4 else cs + (0,) for cs in cases]
+    lines = [f'J|{x}|{tok(ty)}|{vt}' if c == 0 else f'J|{x}|{" ".join(map(str, CFGS[c][1]))}|{tok(ty)}|{vt}'
+             for ty, (_, vt), x, c in cases]
     answers = run.driver('C18', lines)
-    for (ty, (pv, vt), x), line, ans in zip(cases, lines, answers):
+    for (ty, (pv, vt), x, c), line, ans in zip(cases, lines, answers):
         if ans.startswith('bad-'):
             run.disagree(Disagreement(line, 'driver:' + ans, what='protocol'))
             continue
@@ -772,6 +818,9 @@ def judge_cases(run: Run, W: World, cases, label='judgement'):
         text = render(ty, spacing)
         canon = render(ty)
         case = {'type': canon, 'text': text, 'value': vt, 'xsd11': x}
+        if c:
+            case['parser'] = CFGS[c][0]
+            st.count(f'namespaces:cfg{c}')
         spec = None if a['spec'] == '-' else a['spec']
         st.case({'t': canon, 'v': vt, 'x': x}, nontrivial=True)
         st.count('type:' + ty[0] + (':' + ty[1][0] if ty[0] == 'L' else ''))
@@ -779,7 +828,7 @@ def judge_cases(run: Run, W: World, cases, label='judgement'):
         for kind in sorted({t for t in re.findall(r'(?<![\w])([anfmr]) ', ' ' + vt)}):
             st.count('value-has:' + {'a': 'atomic', 'n': 'node', 'f': 'function', 'm': 'map', 'r': 'array'}[kind])
         # 1. match_sequence_type
-        im = impl_match(W, pv, text, x)
+        im = impl_match(W, pv, text, x, c=c)
         st.count('match:' + im[:7])
         tags = []
         if a['fi'] == '1':
@@ -787,10 +836,13 @@ def judge_cases(run: Run, W: World, cases, label='judgement'):
         if a['fk'] == '1':
             tags.append('F18k')
             st.count('type-argument-kind-test')
+        if a['fn'] == '1':
+            tags.append('F18n')       # repaired on branch fix-c18-3; until it is in the reference tree a finding
+            st.count('attribute-name-test-with-namespaces')
         if im != a['match'] or (spec is not None and im != spec):
             run.disagree(Disagreement(dict(case, op='match_sequence_type'), im, a['match'], spec,
                                       what='match_sequence_type', site='sequence_types.match_sequence_type', tags=tags))
-        if x == 1 and len(vt) % 3 == 0:
+        if x == 1 and c == 0 and len(vt) % 3 == 0:
             # the optional `parser` argument left out: no XSD-version restriction, names compared as written
             inp = impl_match(W, pv, text, x, no_parser=True)
             st.count('match:parser=None')
@@ -798,25 +850,42 @@ def judge_cases(run: Run, W: World, cases, label='judgement'):
                 run.disagree(Disagreement(dict(case, op='match_sequence_type(parser=None)'), inp, a['match'], spec,
                                           what='match_sequence_type', site='sequence_types.match_sequence_type', tags=tags))
         # 2. instance of / 3. treat as (through the 3.1 parser)
-        ii = impl_instance(W, pv, text, x)
-        it = impl_treat(W, pv, text, x)
+        ii = impl_instance(W, pv, text, x, c)
+        it = impl_treat(W, pv, text, x, c)
+        # function-typed-parameter matching is compared where get_argument is plain match_sequence_type: kind tests,
+        # node(), map / array tests (atomic names go through cast_to_primitive_type, function tests through as_argument)
+        param_op = (ty[0] == 'L' and ty[1][0] in ('K', 'KT', 'D', 'node', 'many', 'aany')) or ty[0] in ('M', 'A')
+        ip = impl_param(W, pv, text, x, c) if param_op else None
+        if param_op:
+            st.count('param:' + ip[:7])
         st.count('instance:' + ii[:7])
         st.count('treat:' + it[:7])
         itags = list(tags)
         if a['fd'] == '1':
             itags.append('F18d')
-        for op, got, mdl, what, site in (('instance of', ii, a['inst'], 'instance-of', 'evaluate__instance_expression'),
-                                         ('treat as', it, a['treat'], 'treat-as', 'evaluate__treat_expression')):
+        # a function-typed parameter applies the function conversion rules; they leave node / function / map / array
+        # items alone, so for those types the specification's matching is the oracle; for atomic types tie only
+        pspec = spec
+        for op, got, mdl, what, site, sp_ in (
+                ('instance of', ii, a['inst'], 'instance-of', 'evaluate__instance_expression', spec),
+                ('treat as', it, a['treat'], 'treat-as', 'evaluate__treat_expression', spec),
+                ('function parameter', ip, a['param'], 'function-parameter', '_InlineFunction.__call__.get_argument', pspec)):
+            if got is None:
+                continue
+            if op == 'function parameter' and got == 'E:XPST0003' and (a['fpp'] == '1' or ty[0] == 'F'):
+                # the declaration `function($g as T)` itself is rejected by the parser (F18p family): nothing is judged
+                st.count('param:declaration-rejected')
+                continue
             if a['fp'] == '1':
                 # the parser rejects / corrupts this legal type (finding F18p): the model of the evaluation
                 # is not claimed here; a wrong answer is the finding, a right one is fine
                 st.count('parser-gap-type')
-                if spec is not None and got != spec:
-                    run.disagree(Disagreement(dict(case, op=op), got, None, spec, what=what,
+                if sp_ is not None and got != sp_:
+                    run.disagree(Disagreement(dict(case, op=op), got, None, sp_, what=what,
                                               site='xpath31 parser: sequence type', tags=itags + ['F18p']))
                 continue
-            if got != mdl or (spec is not None and got != spec):
-                run.disagree(Disagreement(dict(case, op=op), got, mdl, spec, what=what,
+            if got != mdl or (sp_ is not None and got != sp_):
+                run.disagree(Disagreement(dict(case, op=op), got, mdl, sp_, what=what,
                                           site='_xpath2_operators.' + site, tags=itags))
         if a['dom'] == '1':
             st.count('in-domain-of-match_eq_spec')
@@ -1102,7 +1171,7 @@ def run_history_impl(W: World, src, ops, xsd11=0):
 
 
 def history_line(asts, ops, xsd11=0, inline=False) -> str:
-    base = f'1 f {len(asts) - 1} ' + ' '.join(tok(a) for a in asts)
+    base = f'1 1 f {len(asts) - 1} ' + ' '.join(tok(a) for a in asts)
     parts = []
     for op in ops:
         if op[0] == 'p':
@@ -1170,10 +1239,7 @@ def histories(run: Run, W: World, G: TyGen):
             model, spec, q, r = e.split('/')
             st.count('history:judgement' + (':after-partial' if seen_partial else '') + (':derived-item' if op[2] else ''))
             case = {'source': src, 'history': [describe_op(o) for o in ops[:k + 1]], 'op': describe_op(op)}
-            # F18q (partial application typed by the first k parameters) is repaired on branch fix-c18-2; until that
-            # commit is in the reference tree a wrong answer on an item that descends from a non-prefix mask is the
-            # known finding (the model and the spec both use the parameters at the placeholders)
-            tags = ['F18q'] if q == '1' else []
+            tags = []
             if r == '1':
                 # aliasing of the argument list of an inline function (finding F18r): the model of the typing
                 # is not claimed for this item; a wrong answer is the finding
@@ -1184,10 +1250,6 @@ def histories(run: Run, W: World, G: TyGen):
                 continue
             if spec == '-':
                 spec = None
-            if spec is None and q == '1':
-                # function-typed parameter (no spec) on an item of the F18q region: not comparable until fix-c18-2 is in
-                st.count('history:parameter-judgement-in-F18q-region(skipped)')
-                continue
             if got[k] != model or (spec is not None and got[k] != spec):
                 run.disagree(Disagreement(case, got[k], model, spec, what='history-judgement',
                                           site='XPathFunction.match_function_test', tags=tags))
@@ -1207,7 +1269,7 @@ def histories(run: Run, W: World, G: TyGen):
             st.count('history:single-expression')
             for r, k in zip(res, idx):
                 model, spec, q, fr = entries[k].split('/')
-                tags = ['F18q'] if q == '1' else []
+                tags = []
                 if fr == '1':
                     if r != spec:
                         run.disagree(Disagreement({'expression': expr, 'judgement': describe_op(ops[k])}, r, None, spec,
@@ -1223,6 +1285,197 @@ def describe_op(op) -> str:
     if op[0] == 'p':
         return f'item{op[1]}(' + ', '.join('?' if m else '1' for m in op[2]) + ') -> new item'
     kind = {'jm': 'match_sequence_type', 'ji': 'instance of', 'jt': 'treat as', 'ja': 'passed to a parameter of type'}[op[1]]
+    return f'item{op[2]} {kind} {render(op[3])}'
+
+
+
+# =============================================================================== histories over maps and arrays
+# declared types of the converting function.  Not used: xs:untypedAtomic (the class-level table of the model cannot
+# follow a value through untypedAtomic and out again) and xs:anyAtomicType (cast_to_primitive_type looks up a
+# constructor 'anyAtomicType' that does not exist: a bare KeyError escapes — observation, C03's area)
+CONV_TARGETS = ('xs:double', 'xs:float', 'xs:decimal', 'xs:integer', 'xs:string', 'xs:anyURI')
+
+
+def gen_container_history(W: World, rng):
+    """pool[0] = an array or a map whose members / entry values are sequences of 2-3 atomic values (integers, decimals,
+    doubles, floats, untypedAtomic, anyURI, strings).  ops: ('j', kind, i, ty) judgement of pool[i];
+    ('c', i, k, T, R, how): member k of pool[i] (the stored list itself, fetched by a dynamic call) passed through
+    `function($s as T) as R { $s }` — the result is appended to the pool"""
+    L = live()
+    ix = L.atom_names.index
+    cls_of = {}
+    for v, t in W.atoms:
+        cls_of.setdefault(L.val_names[int(t.split(' ')[1])], []).append((v, t))
+    groups = ['int', 'int', 'Decimal', 'float', 'Float', 'UntypedAtomic', 'AnyURI', 'str', 'Integer', 'Int']
+    is_map = rng.random() < 0.45
+    n = rng.choice([1, 2, 2, 3])
+    members = []
+    for _ in range(n):
+        g = rng.choice(groups)
+        g2 = g if rng.random() < 0.7 else rng.choice(groups)
+        ln = rng.choice([2, 2, 3, 1])
+        members.append([rng.choice(cls_of[g if j % 2 == 0 else g2]) for j in range(ln)])
+    mtoks = [f'{len(m)} ' + ' '.join(t for _, t in m) for m in members]
+    str_cls = L.val_cls.index(str)
+    if is_map:
+        ctok = f'1 m {n} ' + ' '.join(f'{str_cls} {mt}' for mt in mtoks)
+    else:
+        ctok = f'1 r {n} ' + ' '.join(mtoks)
+
+    def leaf_for(member):
+        c = int(member[0][1].split(' ')[1])
+        row = L.inst_rows()[c]
+        return rng.choice(row) if row and rng.random() < 0.8 else ix('xs:anyAtomicType')
+
+    def container_type(member):
+        leaf = ('L', ('a', leaf_for(member)), rng.choice('+*+1'))
+        if rng.random() < 0.15:
+            leaf = ('L', ('a', ix(rng.choice(('xs:double', 'xs:float', 'xs:decimal', 'xs:string')))), rng.choice('+*'))
+        return ('M', ix('xs:string'), leaf, '1') if is_map else ('A', leaf, '1')
+    ops, shapes = [], [('c', members)]          # shapes[i]: ('c', members) or ('s', None)
+    for _ in range(rng.randint(4, 9)):
+        r = rng.random()
+        if r < 0.35:
+            i = 0                  # conversions fetch from the container; derived values are only judged
+            k = rng.randrange(n)
+            T = ('L', ('a', ix(rng.choice(CONV_TARGETS))), rng.choice('**+'))
+            R = T if rng.random() < 0.6 else ('L', ('a', ix(rng.choice(CONV_TARGETS))), '*')
+            how = rng.choice(['call', 'call', 'get'])
+            ops.append(('c', i, k, T, R, how))
+            shapes.append(('s', None))
+        else:
+            i = rng.choice([0, 0, 0, rng.randrange(len(shapes))])
+            if shapes[i][0] == 'c':
+                ty = container_type(rng.choice(members))
+            else:
+                ty = ('L', ('a', ix(rng.choice(CONV_TARGETS + ('xs:integer', 'xs:decimal')))), rng.choice('*+'))
+            ops.append(('j', rng.choice(['jm', 'ji', 'jt']), i, ty))
+    return is_map, members, ctok, ops
+
+
+def container_line(ctok, ops, xsd11=0) -> str:
+    parts = []
+    for op in ops:
+        if op[0] == 'c':
+            parts.append(f'c {op[1]} {op[2]} {tok(op[3])} {tok(op[4])}')
+        else:
+            parts.append(f'{op[1]} {op[2]} {tok(op[3])}')
+    return f'H|{xsd11}|0|1 {ctok[2:] if False else ctok}|' + ';'.join(parts)
+
+
+def run_container_impl(W: World, is_map, members, ops, skip_judgements=False):
+    """answers in order; a coerce op answers T / F (XPTY0004) and appends the returned python value"""
+    P = W.P
+    ctx = lambda **kw: W.XPathContext(W.root1, **kw)   # noqa: E731
+
+    def build():
+        variables = {f'm{j}': [v for v, _ in m] for j, m in enumerate(members)}
+        if is_map:
+            src = 'map{' + ', '.join(f'"k{j}": $m{j}' for j in range(len(members))) + '}'
+        else:
+            src = '[' + ', '.join(f'$m{j}' for j in range(len(members))) + ']'
+        c = P.parse(src).evaluate(ctx(variables=variables))
+        return c[0] if isinstance(c, list) else c
+
+    def judge(kind, value, ty):
+        text = render(ty)
+        if kind == 'jm':
+            return impl_match(W, value, text, 0)
+        if kind == 'ji':
+            return impl_instance(W, value, text, 0)
+        return impl_treat(W, value, text, 0)
+
+    def coerce(value, is_container, k, T, R, how):
+        fn = f'function($s as {render(T)}) as {render(R)} {{ $s }}'
+        if is_container:
+            key = f'"k{k}"' if is_map else str(k + 1)
+            if how == 'get':
+                arg = f'map:get($c, {key})' if is_map else f'array:get($c, {key})'
+            else:
+                arg = f'$c({key})'
+            var = value[0]
+        else:
+            arg, var = '$c', (value[0] if len(value) == 1 else list(value))
+        try:
+            res = P.parse(f'{fn}({arg})').evaluate(ctx(variables={'c': var}))
+            res = list(res) if isinstance(res, list) else [res]
+            return 'T', res
+        except Exception as e:
+            t = err_text(e)
+            return ('F' if t == 'E:XPTY0004' else t), []
+    pool, kinds, out = [[build()]], ['c'], []
+    for op in ops:
+        if op[0] == 'c':
+            ans, val = coerce(pool[op[1]], kinds[op[1]] == 'c', op[2], op[3], op[4], op[5])
+            pool.append(val)
+            kinds.append('s')
+            out.append(ans)
+        else:
+            out.append(None if skip_judgements else judge(op[1], pool[op[2]], op[3]))
+    return out, pool
+
+
+def container_histories(run: Run, W: World):
+    st = run.stats
+    rng = run.rng
+    hs = [gen_container_history(W, rng) for _ in range(run.scale(300, 3000))]
+    # seed history: integers in an array member, promoted to xs:double* by a parameter type, array judged again
+    L = live()
+    ix = L.atom_names.index
+    ints = [(1, f'a {L.val_cls.index(int)}'), (2, f'a {L.val_cls.index(int)}')]
+    for is_map in (False, True):
+        cty = (lambda leaf: ('M', ix('xs:string'), leaf, '1')) if is_map else (lambda leaf: ('A', leaf, '1'))
+        ipl = ('L', ('a', ix('xs:integer')), '+')
+        dbl = ('L', ('a', ix('xs:double')), '*')
+        ctok = (f'1 m 1 {L.val_cls.index(str)} 2 {ints[0][1]} {ints[1][1]}' if is_map else f'1 r 1 2 {ints[0][1]} {ints[1][1]}')
+        hs.insert(0, (is_map, [ints], ctok, [('j', 'ji', 0, cty(ipl)), ('c', 0, 0, dbl, dbl, 'call'), ('j', 'ji', 0, cty(ipl)),
+                                             ('j', 'jt', 0, cty(ipl)), ('j', 'jm', 1, dbl), ('c', 0, 0, dbl, dbl, 'get'),
+                                             ('j', 'jm', 0, cty(ipl))]))
+    lines = [container_line(ctok, ops) for _, _, ctok, ops in hs]
+    answers = run.driver('C18', lines)
+    for (is_map, members, ctok, ops), line, ans in zip(hs, lines, answers):
+        if not ans.startswith('hist='):
+            run.disagree(Disagreement(line, 'driver:' + ans, what='protocol'))
+            continue
+        entries = ans[5:].split(';')
+        got, _ = run_container_impl(W, is_map, members, ops)
+        st.case({'h': line}, nontrivial=True)
+        st.count('container-history:' + ('map' if is_map else 'array'))
+        seen_conv = False
+        for k, (op, e) in enumerate(zip(ops, entries)):
+            model, spec, _q, _r = e.split('/')
+            spec = None if spec == '-' else spec
+            desc = [describe_cop(o, is_map) for o in ops[:k + 1]]
+            case = {'container': ('map ' if is_map else 'array ') + ctok, 'history': desc, 'op': desc[-1]}
+            if op[0] == 'c':
+                seen_conv = True
+                st.count('container-history:conversion:' + got[k][:3])
+            else:
+                st.count('container-history:judgement' + (':after-conversion' if seen_conv else ''))
+            if got[k] != model or (spec is not None and got[k] != spec):
+                run.disagree(Disagreement(case, got[k], model, spec, what='container-history',
+                                          site='XPathToken.cast_to_primitive_type / match_sequence_type'))
+            if op[0] == 'j':
+                # the same single judgement on a fresh container with the same conversions and no other judgement
+                fresh_ops = [o for o in ops[:k] if o[0] == 'c'] + [op]
+                fgot, _ = run_container_impl(W, is_map, members, fresh_ops)
+                # ... and on a fresh container WITHOUT the conversions, when the judged value is the container itself
+                if op[2] == 0:
+                    f0, _ = run_container_impl(W, is_map, members, [op])
+                    if got[k] != f0[-1]:
+                        run.disagree(Disagreement(dict(case, untouched=f0[-1]), got[k], None, f0[-1], what='conversion-changed-its-argument',
+                                                  site='XPathToken.cast_to_primitive_type'))
+                if got[k] != fgot[-1]:
+                    run.disagree(Disagreement(dict(case, fresh=fgot[-1]), got[k], None, fgot[-1], what='history-dependence',
+                                              site='state kept on a stored sequence'))
+
+
+def describe_cop(op, is_map) -> str:
+    if op[0] == 'c':
+        key = (f'"k{op[2]}"' if is_map else str(op[2] + 1))
+        fetch = (f'item{op[1]}({key})' if op[5] == 'call' else f'{"map" if is_map else "array"}:get(item{op[1]}, {key})')
+        return f'function($s as {render(op[3])}) as {render(op[4])} {{ $s }}({fetch}) -> new item'
+    kind = {'jm': 'match_sequence_type', 'ji': 'instance of', 'jt': 'treat as'}[op[1]]
     return f'item{op[2]} {kind} {render(op[3])}'
 
 
@@ -1483,8 +1736,11 @@ def correspond(run: Run):
         x = 1 if rng.random() < 0.25 else 0
         if x == 0 and mentions(ty, set(live().xsd11_only)):
             x = 1          # an XSD 1.0 processor does not know xs:dateTimeStamp / xs:error: static error, not a judgement
-        cases.append((ty, v, x))
-    cases = fixed_judgements(W) + cases
+        c = rng.randrange(1, len(CFGS)) if rng.random() < 0.3 else 0
+        if c:
+            ty = prefixify(ty, CFGS[c][1], rng)
+        cases.append((ty, v, x, c))
+    cases = fixed_judgements(W) + namespace_judgements(W) + cases
     for i in range(0, len(cases), 4000):
         judge_cases(run, W, cases[i:i + 4000])
     matrix_cases(run, W)
@@ -1497,12 +1753,66 @@ def correspond(run: Run):
     values = [W.gen_seq() for _ in range(run.scale(60, 200))] + [([], '0')]
     laws_of_real_relation(run, W, types, values)
     histories(run, W, G)
+    container_histories(run, W)
     signatures(run, W)
     run.stats.rule = ('judgement = (sequence type AST rendered with random spacing, value of length 0..3 built from '
                       'atomic values of every value class with a sample, nodes of every kind from two documents, '
                       'function items with declared signatures, maps, arrays, xsd version) checked through '
                       'match_sequence_type, instance of, treat as; restriction = pair of types through '
                       'is_sequence_type_restriction; distinct = distinct (canonical type text, value tokens) or type pairs')
+
+
+def prefixify(ty, cfg, rng):
+    """write some of the element / attribute names of the kind tests (outside typed function tests) with a prefix
+    that the configuration binds"""
+    bound = [pre for pre in (1, 2) if cfg[pre]]
+    k = ty[0]
+    if k == 'L':
+        leaf = ty[1]
+        if leaf[0] in ('K', 'KT') and leaf[1] in 'ea' and isinstance(leaf[2], int) and leaf[2] < 100 and bound \
+                and rng.random() < 0.5:
+            leaf = leaf[:2] + (100 * rng.choice(bound) + leaf[2],) + leaf[3:]
+        elif leaf[0] == 'D' and isinstance(leaf[1], int) and leaf[1] < 100 and bound and rng.random() < 0.5:
+            leaf = ('D', 100 * rng.choice(bound) + leaf[1])
+        return ('L', leaf, ty[2])
+    if k == 'M':
+        return ('M', ty[1], prefixify(ty[2], cfg, rng), ty[3])
+    if k == 'A':
+        return ('A', prefixify(ty[1], cfg, rng), ty[2])
+    return ty
+
+
+def namespace_judgements(W: World):
+    """every parser configuration x every element / attribute node of the three documents x the element / attribute
+    tests whose local name is the node's, written unprefixed and with every bound prefix — at the top level (kind-test
+    token for `instance of` / `treat as`, match_sequence_type directly, function parameter) and as the member type of an
+    array / value type of a map (match_sequence_type from inside the parser)"""
+    L = live()
+    ctx = W.XPathContext(W.root1)
+    out = []
+    str_cls = L.val_cls.index(str)
+    for c in range(1, len(CFGS)):
+        cfg = CFGS[c][1]
+        for node, nt_tok in W.nodes:
+            parts = nt_tok.split(' ')
+            kind, name = parts[1], int(parts[2])
+            if kind not in 'ea' or name % 100 == 0:
+                continue
+            arr = W.P.parse('[$v]').evaluate(W.XPathContext(W.root1, variables={'v': node}))
+            mp = W.P.parse('map{"k": $v}').evaluate(W.XPathContext(W.root1, variables={'v': node}))
+            for tkind in 'ea':
+                for pre in (0, 1, 2):
+                    if pre and not cfg[pre]:
+                        continue
+                    leaf = ('K', tkind, 100 * pre + name % 100)
+                    x = (c + pre + name) % 2
+                    out.append((('L', leaf, '1'), ([node], '1 ' + nt_tok), x, c))
+                    out.append((('A', ('L', leaf, '1'), '1'), ([arr], f'1 r 1 1 {nt_tok}'), x, c))
+                    out.append((('M', L.atom_names.index('xs:string'), ('L', leaf, '?'), '1'),
+                                ([mp], f'1 m 1 {str_cls} 1 {nt_tok}'), x, c))
+            out.append((('L', ('D', name % 100), '1'), ([W.root3], next(t for n, t in W.nodes if n is W.root3) and
+                        '1 ' + next(t for n, t in W.nodes if n is W.root3)), 0, c))
+    return out
 
 
 def fixed_judgements(W: World):
@@ -1528,7 +1838,7 @@ def fixed_judgements(W: World):
     k = 0
     for node, nt_tok in W.nodes:
         parts = nt_tok.split(' ')
-        own = int(parts[2]) or 1
+        own = (int(parts[2]) % 100) or 1
         for kind in 'ea':
             for nt in ('*', own, own % 4 + 1):
                 for ta in tas:
@@ -1554,7 +1864,7 @@ def type_for(W, G, v, rng):
         return ('L', rng.choice([('item',), ('num',)]), occ)
     if kind == 'n':
         k = first[2]
-        name = int(first[3])
+        name = int(first[3]) % 100
         leaf = rng.choice([('node',), ('K', k, '-'), ('K', k, name if k in 'eap' and name else '-'), ('item',),
                            ('K', rng.choice('ean'), rng.choice(['-', name or 1]))])
         if k == 'd':
@@ -1645,6 +1955,33 @@ def lean_ty(ty) -> str:
     return f'(.array {lean_ty(ty[1])} {occ[ty[2]]})'
 
 
+def cast_rows():
+    """castRows[c][t]: class index of XPathToken.cast_to_primitive_type(sample of class c, 'xs:<t>*') (c itself when the
+    value comes back as it was, or when the class has no sample)"""
+    from elementpath.xpath31 import XPath31Parser
+    L = live()
+    tk = XPath31Parser().parse('1')
+    W = World(__import__('random').Random(0))
+    sample = {}
+    for v, t in W.atoms:
+        sample.setdefault(int(t.split(' ')[1]), v)
+    rows = []
+    for c in range(len(L.val_cls)):
+        row = []
+        for name in L.atom_names:
+            r = c
+            if c in sample:
+                try:
+                    out = tk.cast_to_primitive_type([sample[c]], name + '*')
+                    if isinstance(out, list) and len(out) == 1 and type(out[0]) in L.val_cls:
+                        r = L.val_cls.index(type(out[0]))
+                except Exception:
+                    r = c
+            row.append(r)
+        rows.append(row)
+    return rows
+
+
 def translate(run: Run) -> dict:
     L = live()
     from elementpath.xpath31 import XPath31Parser
@@ -1678,6 +2015,7 @@ def translate(run: Run) -> dict:
            f'  anyURI := {names.index("xs:anyURI")}',
            f'  intCls := {L.val_cls.index(int)}',
            f'  untypedCls := {L.val_names.index("UntypedAtomic")}',
+           '  castRows := [' + ', '.join(lean_list(r) for r in cast_rows()) + ']',
            '',
            '/-- the specification\'s view: an XSD 1.0 processor does not know the XSD 1.1-only types -/',
            'def specTables (xsd11 : Bool) : SpecTables where',
